@@ -228,3 +228,90 @@ impl<T, A: Allocator> RawTable<T, A> {
         }
     }
 }
+
+/// Verification hooks (cargo feature `verif-hooks`, off by default): drives
+/// `ParDrainProducer::{split, fold_with, drop}` along a caller-chosen tree,
+/// because rayon's `bridge_unindexed` owns the split decisions otherwise.
+#[cfg(feature = "verif-hooks")]
+pub mod verif {
+    use super::{guard, Allocator, Folder, ParDrainProducer, RawTable, UnindexedProducer};
+    use alloc::vec::Vec;
+
+    /// What to do with a node of the split tree.
+    #[derive(Clone, Copy, Debug, PartialEq, Eq)]
+    pub enum DrainNode {
+        /// Split the producer (a producer that cannot split is folded completely).
+        Split,
+        /// `fold_with` a folder that reports `full()` after this many items (at least 1).
+        Fold(usize),
+        /// Drop the producer without folding.
+        Drop,
+    }
+
+    struct SinkFolder<'a, T> {
+        sink: &'a mut dyn FnMut(T),
+        left: usize,
+    }
+
+    impl<T> Folder<T> for SinkFolder<'_, T> {
+        type Result = ();
+        fn consume(self, item: T) -> Self {
+            (self.sink)(item);
+            SinkFolder {
+                sink: self.sink,
+                left: self.left.saturating_sub(1),
+            }
+        }
+        fn complete(self) {}
+        fn full(&self) -> bool {
+            self.left == 0
+        }
+    }
+
+    impl<T: Send, A: Allocator> RawTable<T, A> {
+        /// Same set-up as `RawParDrain::drive_unindexed`, then walks the tree.
+        pub fn verif_par_drain_tree(
+            &mut self,
+            decide: &mut dyn FnMut(&[bool]) -> DrainNode,
+            sink: &mut dyn FnMut(T),
+        ) {
+            fn rec<T: Send>(
+                p: ParDrainProducer<T>,
+                path: &mut Vec<bool>,
+                decide: &mut dyn FnMut(&[bool]) -> DrainNode,
+                sink: &mut dyn FnMut(T),
+            ) {
+                match decide(path) {
+                    DrainNode::Split => {
+                        let (left, right) = p.split();
+                        if let Some(right) = right {
+                            path.push(false);
+                            rec(left, path, decide, sink);
+                            path.pop();
+                            path.push(true);
+                            rec(right, path, decide, sink);
+                            path.pop();
+                        } else {
+                            left.fold_with(SinkFolder {
+                                sink,
+                                left: usize::MAX,
+                            });
+                        }
+                    }
+                    DrainNode::Fold(n) => {
+                        p.fold_with(SinkFolder {
+                            sink,
+                            left: core::cmp::max(n, 1),
+                        });
+                    }
+                    DrainNode::Drop => drop(p),
+                }
+            }
+            let guard = guard(self, |table| table.clear_no_drop());
+            // SAFETY: the table outlives the iterator.
+            let iter = unsafe { guard.iter().iter };
+            let mut path = Vec::new();
+            rec(ParDrainProducer { iter }, &mut path, decide, sink);
+        }
+    }
+}
